@@ -2,7 +2,7 @@
    independent scanner over printed Rust types that decides which definitions are looked for. *)
 From Coq Require Import String Ascii.
 From Coq Require Import List Arith Lia Bool.
-Require Import TT.Model.Str TT.Model.TypeParse.
+Require Import TT.Model.Str TT.Model.C07TypeParse.
 Import ListNotations.
 Local Open Scope char_scope.
 Local Open Scope list_scope.
@@ -76,3 +76,11 @@ Fixpoint names (t : rty) : list str :=
 Definition ex1 := RPath (L "Result") [RTuple [RPath (L "HashMap") [RPath (L "String") []; RPath (L "User") []]; RPath (L "Inner") []]; RPath (L "String") []].
 Definition ex2 := RPath (L "HashMap") [RPath (L "String") []; RPath (L "Vec") [RTuple [RPath (L "A") []; RRef (RPath (L "B") [])]]].
 Definition ex3 := RPath (L "Result") [RPath (L "User") []].
+
+(* the harvester own defect class: Result with one argument (an alias) *)
+Fixpoint kf_result_one_arg (t : rty) : bool :=        (* Result<T>: no comma, nothing is harvested *)
+  match t with
+  | RPath n args => (is_name n "Result" && Nat.eqb (List.length args) 1) || existsb kf_result_one_arg args
+  | RRef t => kf_result_one_arg t
+  | RTuple ts => existsb kf_result_one_arg ts
+  end.
